@@ -41,27 +41,31 @@ structure St where
   inbound : Nat
   deriving DecidableEq, Repr
 
-/-- one iteration of `Client.recv`: new state, actions in order, and whether the loop continues -/
+/-- one iteration of `Client.recv`: new state, actions in order, and whether the loop continues. A pass that ends the
+loop first tells the keepalive of the session to stop (`quitClosed`) and only then reports the loss: the handler of the
+Disconnected event reconnects at once under a StreamManager, and the keepalive of the lost session must not be around
+then (F-18b). -/
 def clientStep (s : St) : In → St × List Act × Bool
-  | .cut => (s, [.errh, .disconnected s.smId s.inbound], false)
+  | .cut => (s, [.quitClosed, .errh, .disconnected s.smId s.inbound], false)
   | .pkt .serr _ => (s, [.route .serr, .streamErrorEv, .errh, .disconnect, .route .serr], true)
   | .pkt .r fails =>
-    if fails then (s, [.errh, .disconnected s.smId s.inbound], false)
+    if fails then (s, [.quitClosed, .errh, .disconnected s.smId s.inbound], false)
     else (s, [.answer s.inbound, .route .r], true)
-  | .pkt .close _ => (s, [.streamClose, .disconnected s.smId s.inbound], false)
+  | .pkt .close _ => (s, [.quitClosed, .streamClose, .disconnected s.smId s.inbound], false)
   | .pkt p _ =>
     let s' := if p.isStanza then { s with inbound := s.inbound + 1 } else s
     (s', [.route p], true)
 
-/-- `Client.recv`: iterate until a step stops; the input ends like a cut (EOF); `defer close(keepaliveQuit)`. -/
+/-- `Client.recv`: iterate until a step stops; the input ends like a cut (EOF). (The close of the quit channel is also
+deferred, under a `sync.Once`: a panic in the loop would still stop the keepalive.) -/
 def clientRecv (s : St) : List In → St × List Act
-  | [] => (s, (clientStep s .cut).2.1 ++ [.quitClosed])
+  | [] => (s, (clientStep s .cut).2.1)
   | i :: rest =>
     let (s', acts, cont) := clientStep s i
     if cont then
       let (s'', more) := clientRecv s' rest
       (s'', acts ++ more)
-    else (s', acts ++ [.quitClosed])
+    else (s', acts)
 
 /-- `Component.recv` (no stream management, synchronous routing, state change before the error callback). -/
 def componentStep : In → List Act × Bool
